@@ -81,7 +81,7 @@ def c14(tier):
     maxw = 6 if tier == "quick" else 8
     if rw and "call" in rw:
         maxw = 2
-    res = tlc.run_tlc("MCCell", env={"MAXW": maxw}, workers=max(2, NCPU - 2), timeout=7200, allow_violation=True)
+    res = tlc.run_tlc("MCCell", env={"MAXW": maxw}, workers=max(2, NCPU - 2), timeout=14400, allow_violation=True)
     rep.add_tlc(res)
     rep.coverage["design_check"] = {"widths": "1..%d" % maxw, "operand_pairs": res.distinct,
                                     "invariants": ["DivMatchesBruteForce", "ContractsMatchBruteForce", "InvOK",
